@@ -291,6 +291,14 @@ class Report:
         if have < minimum and function and new_helpers_of(function):
             self.vanished(rule, f"{have} of the {minimum} confirmed instances of '{counter}' found", function)
             return
+        if 0 < have < minimum:
+            # Fewer instances than were confirmed on the pinned tree, but not none: two similar sites merged into one
+            # parametrised site is the commonest behaviour-preserving cause. The rule was not vacuous (every instance it
+            # found was judged); what it no longer finds is recorded as undecided and printed, not passed over silently.
+            self.obligations.append(Obligation(rule, f"{have} of the {minimum} instances of '{counter}' confirmed on the pinned tree were found", "", True, "coverage dropped", "not decided for the instances no longer matched (sites merged, or a site written in a form the rule does not read)", function, inconclusive=True))
+            self.counters["coverage_drops"] = self.counters.get("coverage_drops", 0) + 1
+            print(f"COVERAGE-DROP: property={self.prop} rule={rule.split()[0]} matched {have} of the {minimum} confirmed instances of '{counter}'")
+            return
         if have < minimum:
             raise AnalysisError(f"{rule}: matched {have} instances of '{counter}', fewer than the confirmed minimum {minimum} (vacuous rule)")
 
